@@ -1160,6 +1160,10 @@ func (g *dgen) secure(svc *spec.Service, m *spec.Method, path *string) {
 					m.Headers[a.Name] = "Authorization"
 					a.Required, other.Required = false, false
 					g.feat("security:shared-authorization")
+					if m.ImplicitHeaders[other.Name] && t.Draw("implicit-authorization", 2) == 0 {
+						m.ImplicitHeaders[a.Name] = true // both credentials left to goa's implicit mapping
+						g.feat("security:shared-authorization-implicit")
+					}
 					continue
 				}
 				switch t.Pick("token-in", 3, 1, 1) {
@@ -1167,6 +1171,13 @@ func (g *dgen) secure(svc *spec.Service, m *spec.Method, path *string) {
 					if authFree {
 						m.Headers[a.Name] = "Authorization"
 						g.feat("security:bearer-authorization")
+						if t.Draw("implicit-authorization", 2) == 0 {
+							if m.ImplicitHeaders == nil {
+								m.ImplicitHeaders = map[string]bool{}
+							}
+							m.ImplicitHeaders[a.Name] = true
+							g.feat("security:implicit-authorization")
+						}
 					} else {
 						m.Headers[a.Name] = "X-" + nm
 					}
